@@ -24,14 +24,16 @@ func checkC14(c *Ctx) {
 	c.Rule("C14/R6", "key identity (shared with C08/R1): interning hashes, compares and stores one trimmed row, so equal tuples give equal keys and a measurement cannot land in a cell of its own")
 	c.Rule("C14/R7", "unit metadata survives from file to file: Files never replaces its reader wholesale and the reader creates its unit table only when it has none")
 
+	c.Rule("C14/R8", "-filter stays in force when -table/-row/-col carry a fixed value list: the projection parser ANDs the list's membership tests with the caller's filter, keeping that filter among the operands (same rule as C06/R6), so a measurement the filter rejects cannot reach a cell")
 	p := mustLoad(c, loadOpts{}, "./cmd/benchstat", "./"+btabRel, "./benchproc", "./benchfmt", "./benchmath", "./benchproc/internal/parse")
 	c14Wiring(c, p)
-	c14Add(c, p)
+	c14Add(c, p, "C14/R2")
 	c14Baseline(c, p)
 	c14Assumption(c, p)
 	c14Summary(c, p)
 	c08InternAs(c, p, "C14/R6")
 	c14Units(c, p, "C14/R7")
+	c06Conjoin(c, p, "C14/R8")
 }
 
 func c14Wiring(c *Ctx, p *Prog) {
@@ -145,8 +147,7 @@ func c14Wiring(c *Ctx, p *Prog) {
 	c.Check(scanRecv != nil && scanRecv == unitsRecv, R, "units-from-scanned-files", p.pos(fn.Pos()), "ToTables receives the unit metadata of the Files that was scanned", "the unit metadata handed to ToTables does not come from the Files whose results were added: units' assumptions and labels are lost")
 }
 
-func c14Add(c *Ctx, p *Prog) {
-	const R = "C14/R2"
+func c14Add(c *Ctx, p *Prog, R string) {
 	fn := p.Method(btabRel, "Builder", "Add")
 	valuesF := p.Field(btabRel, "builderCell", "values")
 	resValuesF := p.Field("benchfmt", "Result", "Values")
@@ -158,95 +159,112 @@ func c14Add(c *Ctx, p *Prog) {
 		return
 	}
 	site := p.pos(fn.Pos())
-	loops := naturalLoops(fn)
-	if len(loops) != 1 {
-		c.Undecided(R, "Add:loop", site, "expected one loop over the per-measurement table keys")
-		return
-	}
-	lp := loops[0]
-	start := loopBodyStart(lp)
-	outs, why := e6Enumerate(func() *e6Interp { return &e6Interp{} }, start, lp.Header, iterStop(lp, start), 64)
-	if why != "" {
-		c.Undecided(R, "Add:table", site, why)
-		return
-	}
-	// the loop index value
-	var idx ssa.Value
-	var ranged ssa.Value
-	for _, in := range lp.Header.Instrs {
-		if phi, ok := in.(*ssa.Phi); ok && isInteger(phi.Type()) {
-			for _, r := range *phi.Referrers() {
-				if bo, ok := r.(*ssa.BinOp); ok && bo.Op == token.ADD {
-					idx = bo
-				}
-			}
-		}
-	}
-	for b := range lp.Blocks {
-		for _, in := range b.Instrs {
-			if ia, ok := in.(*ssa.IndexAddr); ok && ia.Index == idx {
-				if call, ok := ia.X.(*ssa.Call); ok && objIs(calleeObj(&call.Call), bprocPkg, "Projection", "ProjectValues") {
-					ranged = call
-				}
-			}
-		}
-	}
-	c.Check(ranged != nil, R, "Add:iterates-table-keys", site, "the loop walks the per-measurement table keys", "the loop in Add does not walk ProjectValues' per-measurement keys")
 	n := 0
-	for _, o := range outs {
-		n++
-		nApp := 0
-		var errs []string
-		for _, a := range o.Actions {
-			if a.Kind != "store" || a.Args[0].Op != "fieldaddr" || a.Args[0].Obj != valuesF {
-				continue
-			}
-			v := a.Args[1]
-			if v.Op != "call" || v.Name != "append" {
-				continue
-			}
-			nApp++
-			els := o.VarArgs(e6Action{Args: v.Args})
-			if len(els) != 1 {
-				errs = append(errs, "more than one value appended at once")
-				continue
-			}
-			el := els[0]
-			// load(fieldaddr Value of indexaddr(load result.Values, idx))
-			okEl := el.IsFieldLoad(vValueF) && el.Args[0].Args[0].Op == "indexaddr" && el.Args[0].Args[0].Args[0].IsFieldLoad(resValuesF) && el.Args[0].Args[0].Args[1].String() == o.Val(idx).String()
-			if !okEl {
-				errs = append(errs, "the appended value is not the measurement at this iteration's index ("+el.String()+")")
-			}
-			// the cell: either the one found in <table>.cells under the cell key, or a new one stored there
-			cell := a.Args[0].Args[0]
-			okCell := false
-			if cell.Op == "lookup" && cell.Args[0].IsFieldLoad(cellsF) {
-				okCell = true
-			}
-			if cell.Op == "alloc" {
-				for _, a2 := range o.Actions {
-					if a2.Kind == "mapupdate" && a2.Args[0].IsFieldLoad(cellsF) && a2.Args[2].String() == cell.String() {
-						okCell = true
+	nLoops := 0
+	for li, lp := range naturalLoops(fn) {
+		// only loops that add values to cells
+		adds := false
+		for b := range lp.Blocks {
+			for _, in := range b.Instrs {
+				if st, ok := in.(*ssa.Store); ok {
+					if f, _ := fieldOfAddr(st.Addr); f == valuesF {
+						adds = true
 					}
 				}
 			}
-			if !okCell {
-				errs = append(errs, "the value is not appended to the cell looked up (or created) in this measurement's table under the (row, column) key")
+		}
+		if !adds {
+			continue
+		}
+		nLoops++
+		start := loopBodyStart(lp)
+		outs, why := e6Enumerate(func() *e6Interp { return &e6Interp{} }, start, lp.Header, iterStop(lp, start), 64)
+		if why != "" {
+			c.Undecided(R, "Add:table", site, why)
+			return
+		}
+		_ = li
+		// the loop index value
+		var idx ssa.Value
+		var ranged ssa.Value
+		for _, in := range lp.Header.Instrs {
+			if phi, ok := in.(*ssa.Phi); ok && isInteger(phi.Type()) {
+				for _, r := range *phi.Referrers() {
+					if bo, ok := r.(*ssa.BinOp); ok && bo.Op == token.ADD {
+						idx = bo
+					}
+				}
 			}
 		}
-		if nApp != 1 {
-			errs = append(errs, fmt.Sprintf("%d values are appended per measurement (must be exactly one)", nApp))
+		for b := range lp.Blocks {
+			for _, in := range b.Instrs {
+				if ia, ok := in.(*ssa.IndexAddr); ok && ia.Index == idx {
+					if call, ok := ia.X.(*ssa.Call); ok && objIs(calleeObj(&call.Call), bprocPkg, "Projection", "ProjectValues") {
+						ranged = call
+					}
+				}
+			}
 		}
-		key := fmt.Sprintf("Add[%s]", o.AssignStr())
-		if len(key) > 150 {
-			key = fmt.Sprintf("Add[path %d]", n)
-		}
-		if len(errs) > 0 {
-			c.Bad(R, key, site, strings.Join(errs, "; "))
-		} else {
-			c.OK(R, key, site, "one measurement, one append, right cell")
+		c.Check(ranged != nil, R, fmt.Sprintf("Add:iterates-table-keys#%d", nLoops), site, "the loop walks the per-measurement table keys", "the loop in Add does not walk ProjectValues' per-measurement keys")
+		for _, o := range outs {
+			n++
+			nApp := 0
+			var errs []string
+			for _, a := range o.Actions {
+				if a.Kind != "store" || a.Args[0].Op != "fieldaddr" || a.Args[0].Obj != valuesF {
+					continue
+				}
+				v := a.Args[1]
+				if v.Op != "call" || v.Name != "append" {
+					continue
+				}
+				nApp++
+				els := o.VarArgs(e6Action{Args: v.Args})
+				if len(els) != 1 {
+					errs = append(errs, "more than one value appended at once")
+					continue
+				}
+				el := els[0]
+				// load(fieldaddr Value of indexaddr(load result.Values, idx))
+				okEl := el.IsFieldLoad(vValueF) && el.Args[0].Args[0].Op == "indexaddr" && el.Args[0].Args[0].Args[0].IsFieldLoad(resValuesF) && el.Args[0].Args[0].Args[1].String() == o.Val(idx).String()
+				if !okEl {
+					errs = append(errs, "the appended value is not the measurement at this iteration's index ("+el.String()+")")
+				}
+				// the cell: either the one found in <table>.cells under the cell key, or a new one stored there
+				cell := a.Args[0].Args[0]
+				okCell := false
+				if cell.Op == "lookup" && cell.Args[0].IsFieldLoad(cellsF) {
+					okCell = true
+				}
+				if cell.Op == "alloc" {
+					for _, a2 := range o.Actions {
+						if a2.Kind == "mapupdate" && a2.Args[0].IsFieldLoad(cellsF) && a2.Args[2].String() == cell.String() {
+							okCell = true
+						}
+					}
+				}
+				if !okCell {
+					errs = append(errs, "the value is not appended to the cell looked up (or created) in this measurement's table under the (row, column) key")
+				}
+			}
+			if nApp != 1 {
+				errs = append(errs, fmt.Sprintf("%d values are appended per measurement (must be exactly one)", nApp))
+			}
+			key := fmt.Sprintf("Add[%s]", o.AssignStr())
+			if len(key) > 150 {
+				key = fmt.Sprintf("Add[path %d]", n)
+			}
+			if nLoops > 1 {
+				key += fmt.Sprintf("@loop%d", nLoops)
+			}
+			if len(errs) > 0 {
+				c.Bad(R, key, site, strings.Join(errs, "; "))
+			} else {
+				c.OK(R, key, site, "one measurement, one append, right cell")
+			}
 		}
 	}
+	c.Check(nLoops >= 1, R, "Add:loop", site, "values are added in a loop over the per-measurement table keys", "no loop in Add appends values to cells")
 	c.Floor(R, "paths through one Add iteration", n, 2)
 	_ = cellsF
 	_ = tablesF
